@@ -8,10 +8,12 @@ import re
 from enginelib import kind, walk
 
 TOKENS = ['a', 'b', 'c', 'ab', ',', '+', 'if', 'x']
-PATTERNS = [r'\d+', r'[a-z]+', r'x*', r'(a)(b)?', r'[ab]', r'\w+', r'b?']
+PATTERNS = [r'\d+', r'[a-z]+', r'x*', r'(a)(b)?', r'[ab]', r'\w+', r'b?',
+            # patterns that look at what is to the LEFT of the current position (the regex is matched AT the position, in the whole text)
+            r'\bab', r'(?<=x)a', r'\Bb', r'^a', r'(?m)^b', r'(?<![a-z])\d']
 PAT_SAMPLES = {r'\d+': ['1', '42', '007'], r'[a-z]+': ['a', 'if', 'abc', 'x'], r'x*': ['', 'x', 'xx'],
                r'(a)(b)?': ['a', 'ab'], r'[ab]': ['a', 'b'], r'\w+': ['a1', 'if', 'b_'], r'b?': ['', 'b'],
-               r'\s*b': ['b', ' b']}
+               r'\s*b': ['b', ' b'], r'\bab': ['ab'], r'(?<=x)a': ['a'], r'\Bb': ['b'], r'^a': ['a'], r'(?m)^b': ['b'], r'(?<![a-z])\d': ['1', '7']}
 CONSTS = ['k', '42', 'hello', "'q'"]
 NAMES = ['n', 'm', 'items', 'v']
 RULE_NAMES = ['start', 'expr', 'term', 'item', 'Tok', 'atom']
@@ -29,6 +31,7 @@ class GenCfg:
         self.dots = 0.02
         self.voids = 0.03
         self.ws_patterns = False
+        self.left_context = True   # patterns with \\b, look-behind, ^ (they see the character before the match, whitespace included)
         self.max_rules = 4
         self.upper_rules = 0.15
         self.__dict__.update(kw)
@@ -43,7 +46,7 @@ def gen_exp(rng: random.Random, cfg: GenCfg, depth: int, rules_fwd: list[str], r
         if r < 0.45:
             return ('tok', rng.choice(TOKENS))
         if r < 0.62:
-            pats = PATTERNS + ([r'\s*b'] if cfg.ws_patterns else [])
+            pats = (PATTERNS if cfg.left_context else PATTERNS[:7]) + ([r'\s*b'] if cfg.ws_patterns else [])
             return ('pat', rng.choice(pats))
         callable_ = rules_fwd + (rules_back if consumed else [])
         if r < 0.85 and callable_:
